@@ -28,6 +28,14 @@ def width(t):
         return 1, False
     if '*' in t or '&' in t:
         return 64, False
+    import re as _re
+    mv = _re.match(r'^(?:const )?__v(\d+)(q|h|s|d)[iuf]', t)
+    if mv:
+        return int(mv.group(1)) * {'q': 8, 'h': 16, 's': 32, 'd': 64}[mv.group(2)], False
+    if 'm128' in t:
+        return 128, False
+    if 'm256' in t:
+        return 256, False
     signed = not (t.startswith('u') or 'unsigned' in t or t in ('size_t',))
     if '64' in t or 'long' in t or t in ('size_t', 'ssize_t', 'ptrdiff_t'):
         return 64, signed
@@ -71,6 +79,75 @@ BUILTINS = {
 }
 
 
+
+# ---- SSE integer intrinsics (Intel lane semantics); vectors are Python ints ----
+
+def _lanes(v, w, n=128):
+    m = (1 << w) - 1
+    return [(v >> (i * w)) & m for i in range(n // w)]
+
+
+def _pack(ls, w):
+    v = 0
+    m = (1 << w) - 1
+    for i, x in enumerate(ls):
+        v |= (x & m) << (i * w)
+    return v
+
+
+def _s(x, w):
+    return x - (1 << w) if x >> (w - 1) else x
+
+
+def _sat_s16(x):
+    return max(-32768, min(32767, x))
+
+
+def _sat_u16(x):
+    return max(0, min(65535, x))
+
+
+SSE = {
+    '_mm_setzero_si128': lambda a: 0,
+    '_mm_set1_epi8': lambda a: _pack([a[0] & 0xFF] * 16, 8),
+    '_mm_set1_epi16': lambda a: _pack([a[0] & 0xFFFF] * 8, 16),
+    '_mm_set1_epi32': lambda a: _pack([a[0] & 0xFFFFFFFF] * 4, 32),
+    '_mm_set1_epi64x': lambda a: _pack([a[0] & M64] * 2, 64),
+    '_mm_set_epi16': lambda a: _pack(list(reversed([x & 0xFFFF for x in a])), 16),
+    '_mm_set_epi32': lambda a: _pack(list(reversed([x & 0xFFFFFFFF for x in a])), 32),
+    '_mm_setr_epi8': lambda a: _pack([x & 0xFF for x in a], 8),
+    '_mm_sub_epi8': lambda a: _pack([x - y for x, y in zip(_lanes(a[0], 8), _lanes(a[1], 8))], 8),
+    '_mm_add_epi8': lambda a: _pack([x + y for x, y in zip(_lanes(a[0], 8), _lanes(a[1], 8))], 8),
+    '_mm_cmpgt_epi8': lambda a: _pack([0xFF if _s(x, 8) > _s(y, 8) else 0 for x, y in zip(_lanes(a[0], 8), _lanes(a[1], 8))], 8),
+    '_mm_cmplt_epi8': lambda a: _pack([0xFF if _s(x, 8) < _s(y, 8) else 0 for x, y in zip(_lanes(a[0], 8), _lanes(a[1], 8))], 8),
+    '_mm_cmpeq_epi8': lambda a: _pack([0xFF if x == y else 0 for x, y in zip(_lanes(a[0], 8), _lanes(a[1], 8))], 8),
+    '_mm_or_si128': lambda a: a[0] | a[1],
+    '_mm_and_si128': lambda a: a[0] & a[1],
+    '_mm_xor_si128': lambda a: a[0] ^ a[1],
+    '_mm_andnot_si128': lambda a: (~a[0]) & a[1] & ((1 << 128) - 1),
+    '_mm_movemask_epi8': lambda a: sum(((x >> 7) & 1) << i for i, x in enumerate(_lanes(a[0], 8))),
+    '_mm_slli_si128': lambda a: (a[0] << (8 * a[1])) & ((1 << 128) - 1) if a[1] < 16 else 0,
+    '_mm_srli_si128': lambda a: (a[0] >> (8 * a[1])) if a[1] < 16 else 0,
+    '_mm_maddubs_epi16': lambda a: _pack([_sat_s16(x0 * _s(y0, 8) + x1 * _s(y1, 8)) for (x0, x1), (y0, y1) in
+                                          zip(zip(*[iter(_lanes(a[0], 8))] * 2), zip(*[iter(_lanes(a[1], 8))] * 2))], 16),
+    '_mm_madd_epi16': lambda a: _pack([_s(x0, 16) * _s(y0, 16) + _s(x1, 16) * _s(y1, 16) for (x0, x1), (y0, y1) in
+                                       zip(zip(*[iter(_lanes(a[0], 16))] * 2), zip(*[iter(_lanes(a[1], 16))] * 2))], 32),
+    '_mm_packus_epi32': lambda a: _pack([_sat_u16(_s(x, 32)) for x in _lanes(a[0], 32)] + [_sat_u16(_s(x, 32)) for x in _lanes(a[1], 32)], 16),
+    '_mm_extract_epi8': lambda a: _lanes(a[0], 8)[a[1] & 15],
+    '_mm_extract_epi16': lambda a: _lanes(a[0], 16)[a[1] & 7],
+    '_mm_extract_epi32': lambda a: _s(_lanes(a[0], 32)[a[1] & 3], 32),
+    '_mm_extract_epi64': lambda a: _s(_lanes(a[0], 64)[a[1] & 1], 64),
+    '__builtin_ia32_pslldqi128_byteshift': lambda a: (a[0] << (8 * a[1])) & ((1 << 128) - 1) if a[1] < 16 else 0,
+    '__builtin_ia32_psrldqi128_byteshift': lambda a: (a[0] >> (8 * a[1])) if a[1] < 16 else 0,
+    '__builtin_ia32_vec_ext_v16qi': lambda a: _s(_lanes(a[0], 8)[a[1] & 15], 8),
+    '__builtin_ia32_vec_ext_v8hi': lambda a: _s(_lanes(a[0], 16)[a[1] & 7], 16),
+    '__builtin_ia32_vec_ext_v4si': lambda a: _s(_lanes(a[0], 32)[a[1] & 3], 32),
+    '__builtin_ia32_vec_ext_v2di': lambda a: _s(_lanes(a[0], 64)[a[1] & 1], 64),
+    '_mm_cvtsi128_si32': lambda a: _s(a[0] & 0xFFFFFFFF, 32),
+    '_mm_cvtsi128_si64': lambda a: _s(a[0] & M64, 64),
+}
+
+
 def _undef(what):
     raise UndefinedBehaviour(what)
 
@@ -88,6 +165,7 @@ class Interp:
         self.call_hook = call_hook
         self.max_steps = max_steps
         self.mem_stores = []
+        self.memory = None        # optional {address: byte}; reads outside raise UndefinedBehaviour
 
     # ---- expressions
     def ev(self, e, env, members):
@@ -182,6 +260,10 @@ class Interp:
                 if args[0] == -(1 << (w - 1)):
                     _undef('%s(%d): the magnitude is not representable in %s' % (name, args[0], e.get('t')))
                 return abs(args[0])
+            if name in ('_mm_loadu_si128', '_mm_load_si128', '_mm_lddqu_si128') and self.memory is not None:
+                return self.load(args[0], 16)
+            if name in SSE:
+                return SSE[name](args)
             if name in BUILTINS:
                 return BUILTINS[name](args)
             g = self.facts.by_id.get(e.get('cid')) if self.facts is not None else None
@@ -196,7 +278,24 @@ class Interp:
                 members.update(mem2)
                 return r
             raise Unsupported('call of %s' % name)
+        if k == 'sub' and self.memory is not None:
+            base = self.ev(e['base'], env, members)
+            idx = self.ev(e.get('idx'), env, members)
+            w, sg = width(e.get('t'))
+            nb = max(1, w // 8)
+            v = self.load(base + idx * nb, nb)
+            return _s(v, w) if sg and w > 1 else v
+        if k == 'un' and False:
+            pass
         raise Unsupported('expression kind %s (%s)' % (k, show(e0)[:50]))
+
+    def load(self, addr, n):
+        v = 0
+        for i in range(n):
+            if addr + i not in self.memory:
+                raise UndefinedBehaviour('read of unmapped byte at offset %d' % (addr + i - min(self.memory)))
+            v |= self.memory[addr + i] << (8 * i)
+        return v
 
     def arith(self, op, l, r, e):
         if op == '+':
@@ -297,7 +396,25 @@ class Interp:
             if b == fn.exit or not live:
                 return None, env, members, False
             if t and t.get('cls') == 'SwitchStmt':
-                raise Unsupported('switch')
+                v = self.ev(t['cond'], env, members)
+                nb = None
+                dflt = None
+                for x in succs:
+                    if x is None:
+                        continue
+                    cv_ = fn.blocks[x].get('case')
+                    try:
+                        if cv_ is not None and int(cv_) == v:
+                            nb = x
+                        elif cv_ is None:
+                            dflt = x
+                    except (TypeError, ValueError):
+                        dflt = x
+                nb = nb if nb is not None else dflt
+                if nb is None:
+                    raise Unsupported('switch without a matching arm')
+                b = nb
+                continue
             if t and t.get('cond') is not None and len(succs) == 2:
                 v = self.ev(t['cond'], env, members)
                 nb = succs[0] if v else succs[1]
